@@ -107,6 +107,17 @@ PROPS = {
         assumptions=['completion requests carry a state in {resolved, rejected, canceled} (front-end validation)'],
         trusted_base=['coroutine control flow and kernel tick are modelled by hand (Model/Coroutines, Model/System) and tied by sysdiff'],
     ),
+    'C10': dict(
+        modules=['Resonate.Properties.C10'],
+        tie_filter=r'schedule|promiseInsert|taskInsert_|shape|wiring|uniques',
+        harness=[sysdiff('sysdiff-schedules', ['CreateSchedule', 'CreateSchedule', 'DeleteSchedule', 'ReadSchedule', 'SearchSchedules', 'CreatePromise', 'ReadPromise'],
+                         (25, 200), (600, 250), 'C10,C01', ['-routed', '40', '-fail', '15', '-crash', '1', '-hostile', '-smallcfg', '-known', 'F5'], (200, 250)),
+                 storediff('storediff-schedules', SCHEDULE_KINDS + ['CreatePromise'], (20, 30), (500, 40))],
+        rule=SYS_RULE + '; schedules on second-grid cron expressions with clock steps that jump over 0..5 occurrences per tick, create / delete racing the firing cycle, a user creating the same promise id, schedule batch sizes 1..100, failures and crashes mid-cycle, markup characters in schedule ids and malformed id templates; the C10 monitor checks on every committed batch that a schedule row changes only by one firing (last_run_time = the occurrence, next_run_time = the NEXT grid point after it, other fields untouched) and that the promise of that occurrence exists with the templated id, timeout = occurrence + promise timeout, parameter and marker tags',
+        assumptions=['cron is abstract in the theorems (IsNext); robfig/cron is validated against the grid model only for the expressions the harness uses',
+                     'completion batch size large enough for all router completions of a cycle to arrive in one tick (harness discipline)'],
+        trusted_base=['schedule coroutines modelled by hand and tied by sysdiff; Model/Env.lean (cron grid, id template subset)'],
+    ),
     'C14': dict(
         modules=['Resonate.Properties.C14'],
         tie_filter=r'(promise|schedule)(Search|Insert|Update|Delete|Select)|shape|wiring|uniques',
